@@ -123,7 +123,7 @@ __CPROVER_assigns(self->s, self->len, self->size)
 __CPROVER_frees(self->s)
 __CPROVER_ensures(__CPROVER_return_value == TRUE)
 __CPROVER_ensures(__CPROVER_old(self->size) == 0 ||
-                  (self->s == NULL && self->len == 0 && self->size == 0))
+                  (self->s == NULL && self->len == 0 && self->size == 0 && __CPROVER_was_freed(__CPROVER_old(self->s))))
 __CPROVER_ensures(__CPROVER_old(self->size) != 0 ||
                   (self->s == __CPROVER_old(self->s) && self->len == __CPROVER_old(self->len) && self->size == 0))
 ;
@@ -262,4 +262,129 @@ __CPROVER_ensures(!(self != NULL && self == other) || __CPROVER_return_value == 
 ;
 
 #endif /* VERIF_NO_ASSUMED_STR_CONTRACTS */
-#endif
+#endif /* VERIF_URL_H */
+
+#if defined(NET_URL_API) && !defined(VERIF_URL_API_H)
+#define VERIF_URL_API_H
+/* ==== PART 2: contracts of the url class's own functions =========================================
+ * Needs "src/url.c" first (spif_url_parse and u_class are file-local): units write
+ *      #include "url.h"   #include "src/url.c"   #define NET_URL_API   #include "url.h"
+ * Each contract is enforced by exactly one unit (C14.parse.*, C06.url_*, C05.url_*) and used through
+ * `replace:` by the callers inside url.c / socket.c.
+ */
+
+#define URL_CLS(u) (NSTR(u)->parent.cls)
+/* post-state "empty URL": what init establishes and done re-establishes */
+#define URL_EMPTY(u) (NSTR(u)->s == NULL && NSTR(u)->len == 0 && NSTR(u)->size == 0 && URL_COMPS_NULL(u))
+/* the argument text of the from_ptr / from_str constructors: a C string described by the ghost extent */
+/* (vg_n1 = its length, a ghost nobody assigns; vg_txt/vg_txt_len are re-seated by the parser) */
+#define URL_ARG_TEXT(p) (vg_n1 < VCAP && __CPROVER_is_fresh((p), vg_n1 + 1) && vg_txt == (const char *) (p) && \
+                         vg_txt_len == vg_n1 && ((const char *) (p))[vg_n1] == 0)
+
+/* ---- C14: the parser (enforced in units/C14/parse.c with the same clauses) ---------------------- */
+static spif_bool_t spif_url_parse(spif_url_t self)
+__CPROVER_requires(__CPROVER_rw_ok(self, sizeof(spif_const_url_t)) && URL_COMPS_NULL(self))
+__CPROVER_requires(NSTR(self)->s != NULL && NSTR(self)->len >= 0 && NSTR(self)->len < NSTR(self)->size &&
+                   NSTR(self)->s[NSTR(self)->len] == 0)
+__CPROVER_assigns(URL_COMP_ASSIGNS(self), vg_txt, vg_txt_len, vg_buf, vg_buf_len, VG_LOOKUP_ASSIGNS)
+__CPROVER_ensures(__CPROVER_return_value == TRUE || __CPROVER_return_value == FALSE)
+__CPROVER_ensures(NSTR_OPT(self->proto))
+__CPROVER_ensures(NSTR_OPT(self->user))
+__CPROVER_ensures(NSTR_OPT(self->passwd))
+__CPROVER_ensures(NSTR_OPT(self->host))
+__CPROVER_ensures(NSTR_OPT(self->port))
+__CPROVER_ensures(NSTR_OPT(self->path))
+__CPROVER_ensures(NSTR_OPT(self->query))
+__CPROVER_ensures(self->passwd == NULL || self->user != NULL)
+;
+
+/* ---- C06: lifecycle ---------------------------------------------------------------------------- */
+spif_bool_t spif_url_init(spif_url_t self)
+__CPROVER_requires(__CPROVER_is_fresh(self, sizeof(spif_const_url_t)))
+__CPROVER_assigns(__CPROVER_object_whole(self))
+__CPROVER_ensures(__CPROVER_return_value == TRUE && URL_EMPTY(self) && URL_CLS(self) == SPIF_CLASS_VAR(url))
+;
+
+spif_url_t spif_url_new(void)
+__CPROVER_assigns()
+__CPROVER_ensures(__CPROVER_is_fresh(__CPROVER_return_value, sizeof(spif_const_url_t)))
+__CPROVER_ensures(URL_EMPTY(__CPROVER_return_value) && URL_CLS(__CPROVER_return_value) == SPIF_CLASS_VAR(url))
+;
+
+#define URL_FREES_COMP(c) __CPROVER_frees(c) __CPROVER_frees((c) != NULL: (c)->s)
+spif_bool_t spif_url_done(spif_url_t self)
+__CPROVER_requires(URL_INV(self))
+__CPROVER_assigns(URL_COMP_ASSIGNS(self), URL_TEXT_ASSIGNS(self))
+__CPROVER_assigns(self->proto != NULL: __CPROVER_object_whole(self->proto))
+__CPROVER_assigns(self->user != NULL: __CPROVER_object_whole(self->user))
+__CPROVER_assigns(self->passwd != NULL: __CPROVER_object_whole(self->passwd))
+__CPROVER_assigns(self->host != NULL: __CPROVER_object_whole(self->host))
+__CPROVER_assigns(self->port != NULL: __CPROVER_object_whole(self->port))
+__CPROVER_assigns(self->path != NULL: __CPROVER_object_whole(self->path))
+__CPROVER_assigns(self->query != NULL: __CPROVER_object_whole(self->query))
+__CPROVER_frees(NSTR(self)->s)
+URL_FREES_COMP(self->proto) URL_FREES_COMP(self->user) URL_FREES_COMP(self->passwd) URL_FREES_COMP(self->host)
+URL_FREES_COMP(self->port) URL_FREES_COMP(self->path) URL_FREES_COMP(self->query)
+__CPROVER_ensures(__CPROVER_return_value == TRUE && URL_EMPTY(self))
+/* every owned block was released: the component objects ... */
+__CPROVER_ensures(__CPROVER_old(self->proto) == NULL || __CPROVER_was_freed(__CPROVER_old(self->proto)))
+__CPROVER_ensures(__CPROVER_old(self->user) == NULL || __CPROVER_was_freed(__CPROVER_old(self->user)))
+__CPROVER_ensures(__CPROVER_old(self->passwd) == NULL || __CPROVER_was_freed(__CPROVER_old(self->passwd)))
+__CPROVER_ensures(__CPROVER_old(self->host) == NULL || __CPROVER_was_freed(__CPROVER_old(self->host)))
+__CPROVER_ensures(__CPROVER_old(self->port) == NULL || __CPROVER_was_freed(__CPROVER_old(self->port)))
+__CPROVER_ensures(__CPROVER_old(self->path) == NULL || __CPROVER_was_freed(__CPROVER_old(self->path)))
+__CPROVER_ensures(__CPROVER_old(self->query) == NULL || __CPROVER_was_freed(__CPROVER_old(self->query)))
+/* ... and the text buffer */
+__CPROVER_ensures(__CPROVER_was_freed(__CPROVER_old(NSTR(self)->s)))
+;
+
+spif_bool_t spif_url_del(spif_url_t self)
+__CPROVER_requires(URL_INV(self))
+__CPROVER_assigns(__CPROVER_object_whole(self))
+__CPROVER_assigns(self->proto != NULL: __CPROVER_object_whole(self->proto))
+__CPROVER_assigns(self->user != NULL: __CPROVER_object_whole(self->user))
+__CPROVER_assigns(self->passwd != NULL: __CPROVER_object_whole(self->passwd))
+__CPROVER_assigns(self->host != NULL: __CPROVER_object_whole(self->host))
+__CPROVER_assigns(self->port != NULL: __CPROVER_object_whole(self->port))
+__CPROVER_assigns(self->path != NULL: __CPROVER_object_whole(self->path))
+__CPROVER_assigns(self->query != NULL: __CPROVER_object_whole(self->query))
+__CPROVER_frees(self, NSTR(self)->s)
+URL_FREES_COMP(self->proto) URL_FREES_COMP(self->user) URL_FREES_COMP(self->passwd) URL_FREES_COMP(self->host)
+URL_FREES_COMP(self->port) URL_FREES_COMP(self->path) URL_FREES_COMP(self->query)
+__CPROVER_ensures(__CPROVER_return_value == TRUE && __CPROVER_was_freed(__CPROVER_old(self)))
+;
+
+/* from_ptr / from_str: the new text is a fresh terminated copy of the argument's length; the argument is
+ * not assigned; the components are whatever the parser stored (each absent or a fresh owned str) */
+#define URL_BUILT(u) (URL_CLS(u) == SPIF_CLASS_VAR(url) && NSTR(u)->len >= 0 && (size_t) NSTR(u)->len == vg_n1 && \
+    NSTR(u)->size == NSTR(u)->len + 1 && __CPROVER_is_fresh(NSTR(u)->s, (size_t) NSTR(u)->size) && NSTR(u)->s[NSTR(u)->len] == 0)
+#define URL_BUILT_COMPS(u) (NSTR_OPT((u)->proto) && NSTR_OPT((u)->user) && NSTR_OPT((u)->passwd) && NSTR_OPT((u)->host) && \
+    NSTR_OPT((u)->port) && NSTR_OPT((u)->path) && NSTR_OPT((u)->query))
+
+spif_bool_t spif_url_init_from_ptr(spif_url_t self, spif_charptr_t other)
+__CPROVER_requires(__CPROVER_is_fresh(self, sizeof(spif_const_url_t)) && URL_ARG_TEXT(other))
+__CPROVER_assigns(__CPROVER_object_whole(self), vg_txt, vg_txt_len, vg_buf, vg_buf_len, VG_LOOKUP_ASSIGNS)
+__CPROVER_ensures(__CPROVER_return_value == TRUE && URL_BUILT(self))
+__CPROVER_ensures(URL_BUILT_COMPS(self))
+;
+spif_bool_t spif_url_init_from_str(spif_url_t self, spif_str_t other)
+__CPROVER_requires(__CPROVER_is_fresh(self, sizeof(spif_const_url_t)) && __CPROVER_is_fresh(other, sizeof(spif_const_str_t)))
+__CPROVER_requires(URL_ARG_TEXT(other->s) && other->len >= 0 && (size_t) other->len == vg_n1 && other->size > other->len)
+__CPROVER_assigns(__CPROVER_object_whole(self), vg_txt, vg_txt_len, vg_buf, vg_buf_len, VG_LOOKUP_ASSIGNS)
+__CPROVER_ensures(__CPROVER_return_value == TRUE && URL_BUILT(self))
+__CPROVER_ensures(URL_BUILT_COMPS(self))
+;
+spif_url_t spif_url_new_from_ptr(spif_charptr_t other)
+__CPROVER_requires(URL_ARG_TEXT(other))
+__CPROVER_assigns(vg_txt, vg_txt_len, vg_buf, vg_buf_len, VG_LOOKUP_ASSIGNS)
+__CPROVER_ensures(__CPROVER_is_fresh(__CPROVER_return_value, sizeof(spif_const_url_t)) && URL_BUILT(__CPROVER_return_value))
+__CPROVER_ensures(URL_BUILT_COMPS(__CPROVER_return_value))
+;
+spif_url_t spif_url_new_from_str(spif_str_t other)
+__CPROVER_requires(__CPROVER_is_fresh(other, sizeof(spif_const_str_t)))
+__CPROVER_requires(URL_ARG_TEXT(other->s) && other->len >= 0 && (size_t) other->len == vg_n1 && other->size > other->len)
+__CPROVER_assigns(vg_txt, vg_txt_len, vg_buf, vg_buf_len, VG_LOOKUP_ASSIGNS)
+__CPROVER_ensures(__CPROVER_is_fresh(__CPROVER_return_value, sizeof(spif_const_url_t)) && URL_BUILT(__CPROVER_return_value))
+__CPROVER_ensures(URL_BUILT_COMPS(__CPROVER_return_value))
+;
+#endif /* NET_URL_API */
